@@ -107,6 +107,9 @@ def _m_stmt(s):
                 canon_model(s[2]) if s[2] is not None else None)
     if k == 'shortif':
         return ('shortif', _m_exp(s[1]), canon_model(s[2]), canon_model(s[3]) if s[3] else None)
+    if k == 'ifdo':
+        # picotool reads `if (c) do ... end` as an ordinary if whose condition is the parenthesised expression
+        return ('if', [(('exp', [('chain', ('paren', _m_exp(s[1])), [])]), canon_model(s[2]))], None)
     if k == 'fornum':
         return ('fornum', s[1], _m_exp(s[2]), _m_exp(s[3]), _m_exp(s[4]) if s[4] is not None else None,
                 canon_model(s[5]))
